@@ -211,8 +211,12 @@ Definition expressible_coded (c : ctx) : bool :=
   expressible c && match c with CFixed _ scale nbits _ _ => scale =? nbits | _ => true end.
 
 (* ------------------------------------------------------------------ numbers *)
-Inductive unop := UNeg | UAbs | USqrt.
-Inductive binop := BAdd | BSub | BMul | BDiv.
+(* the real-valued unary / binary operators of the backend's and the
+   frontend's operator tables, named after the FPy node class *)
+Inductive unop :=
+  | UNeg | UAbs | USqrt | UCbrt | UCeil | UFloor | UNearbyInt | URoundInt | UTrunc | UAcos | UAsin | UAtan | UCos | USin | UTan | UAcosh | UAsinh | UAtanh | UCosh | USinh | UTanh | UExp | UExp2 | UExpm1 | ULog | ULog10 | ULog1p | ULog2 | UErf | UErfc | ULgamma | UTgamma.
+Inductive binop :=
+  | BAdd | BSub | BMul | BDiv | BCopysign | BFdim | BFmod | BRemainder | BHypot | BAtan2 | BPow.
 Inductive cmpop := CLt | CLe | CGt | CGe | CEq | CNe.
 
 Record numops (V : Type) := mkNumops {
